@@ -7,7 +7,7 @@ bind the three heads to three publishers and the head of the copy to a fourth on
 three bound values, the tail of the copy carries `(T x' xt xl).apply` for the value `x'` bound to the copy's head —
 the same actors with the very states trained on `(xt, xl)`: the groups are shared.
 -/
-import ForML.Lemmas.C03Region
+import ForML.Lemmas.C03Areg
 
 namespace ForML.Compose
 
@@ -52,7 +52,7 @@ theorem iterV2 {m : GraphM Trunk} {T : Scope} (hm : Spec True m T) (hT : T.Indep
     ∃ t c g1 g2 g3 g4 g5 g6 W', Run m g t g1 ∧ Run (copySegment t.apply) g1 c g2 ∧
       Run (t.apply.subscribeTo pa) g2 () g3 ∧ Run (t.train.subscribeTo pt) g3 () g4 ∧
       Run (t.label.subscribeTo pl) g4 () g5 ∧ Run (c.subscribeTo px) g5 () g6 ∧
-      IterOk g g6 W W' t c rr (T va vt vl) (T vx vt vl).apply := by
+      IterOk g g6 W W' t c rr (T va vt vl) (T vx vt vl).apply ∧ IterExt g g6 W' t c pa pt pl px := by
   obtain ⟨t, g1, W1, hr1, ok⟩ := hm g W va vt vl rr hi hw hrr
   obtain ⟨t', g1', Wx, hr1', okx'⟩ := hm g W vx vt vl rr hi hw hrr
   obtain ⟨et, eg⟩ := run_det hr1 hr1'
@@ -152,7 +152,34 @@ theorem iterV2 {m : GraphM Trunk} {T : Scope} (hm : Spec True m T) (hT : T.Indep
     have := hlt1 _ hq
     obtain ⟨a1, a2, _⟩ := cok.agree q.node this
     exact ⟨a1.mpr hq, cok.agree.σ q this, a2⟩
-  refine ⟨t, c, g1, g2, _, _, _, g6, W2, hr1, hr2, hr3, hr4, hr5, by rw [hg6]; exact hr6, ?_⟩
+  -- the structural side: where the subscriptions go, what is reachable from an apply head
+  have hin6 : ∀ s k q, g6.inputOf s k = some q →
+      (s < g1.next ∧ g1.inputOf s k = some q) ∨ (g1.next ≤ s ∧ g1.next ≤ q.node) ∨ (s = t.apply.head ∧ q = pa) ∨
+      (s = t.train.head ∧ q = pt) ∨ (s = t.label.head ∧ q = pl) ∨ (g1.next ≤ s ∧ q = px) := by
+    intro s k q hq
+    rw [hg6] at hq
+    rcases inputOf_pushEdge_some hq with hq | ⟨e1, _, e3⟩
+    · rcases inputOf_pushEdge_some hq with hq | ⟨e1, _, e3⟩
+      · rcases inputOf_pushEdge_some hq with hq | ⟨e1, _, e3⟩
+        · rcases inputOf_pushEdge_some hq with hq | ⟨e1, _, e3⟩
+          · by_cases hs : s < g1.next
+            · rw [cok.frame.input s k hs] at hq; exact Or.inl ⟨hs, hq⟩
+            · exact Or.inr (Or.inl ⟨by omega, cok.closed s k q (by omega) hq⟩)
+          · exact Or.inr (Or.inr (Or.inl ⟨e1.symm, e3.symm⟩))
+        · exact Or.inr (Or.inr (Or.inr (Or.inl ⟨e1.symm, e3.symm⟩)))
+      · exact Or.inr (Or.inr (Or.inr (Or.inr (Or.inl ⟨e1.symm, e3.symm⟩))))
+    · exact Or.inr (Or.inr (Or.inr (Or.inr (Or.inr ⟨by rw [← e1]; exact hch, e3.symm⟩))))
+  have hext : IterExt g g6 W2 t c pa pt pl px := by
+    refine iter_reach hw f6 hi.bounded ⟨ok.ha.ge, hha⟩ (ok.closed trivial) hin6
+      (fun s k q hq => in6 s k q (cok.frame.input_mono ok.inv.bounded s k q hq)) ia6 ok.ha.free
+      (not_reach_of_no_input ok.ht.free (fun e => d1 e.symm)) (not_reach_of_no_input ok.hl.free (fun e => d2 e.symm))
+      (fun n hre hne => (ok.reg trivial n hre hne).2) ?_ (ok.regTail trivial) (ok.sep trivial)
+      ⟨ok.tails_ge.2.1, ok.tails_ge.2.2, cok.tail_ge⟩ (hlt _ ht.live) (hlt _ hl.live) (hlt _ hx.live)
+    intro n hre
+    by_cases hh : n = t.apply.head
+    · rw [hh]; exact la
+    · exact (old2 ⟨n, 0⟩ (ok.reg trivial n hre hh).1).1
+  refine ⟨t, c, g1, g2, _, _, _, g6, W2, hr1, hr2, hr3, hr4, hr5, by rw [hg6]; exact hr6, ?_, hext⟩
   refine ⟨by rw [hg6]; exact hi6, by rw [hg6]; exact hw6, f6, ok.agree.trans cok.agree hgg1, ?_, ?_, ?_,
     ⟨cok.tail_live, by rw [cok.tail_val]; exact okx.ta.2⟩,
     ⟨ok.tails_ge.1, ok.tails_ge.2.1, ok.tails_ge.2.2, by have := cok.tail_ge; omega⟩, ?_, ?_, ?_, ?_⟩
@@ -213,7 +240,7 @@ theorem iterV1 {m : GraphM Trunk} {T : Scope} (hm : Spec True m T) (hT : T.Indep
     ∃ t c g1 g2 g3 g4 g5 g6 W', Run m g t g1 ∧ Run (t.train.subscribeTo pt) g1 () g2 ∧
       Run (t.label.subscribeTo pl) g2 () g3 ∧ Run (t.apply.subscribeTo pa) g3 () g4 ∧
       Run (copySegment t.apply) g4 c g5 ∧ Run (c.subscribeTo px) g5 () g6 ∧
-      IterOk g g6 W W' t c rr (T va vt vl) (T vx vt vl).apply := by
+      IterOk g g6 W W' t c rr (T va vt vl) (T vx vt vl).apply ∧ IterExt g g6 W' t c pa pt pl px := by
   obtain ⟨t, g1, W1, hr1, ok⟩ := hm g W va vt vl rr hi hw hrr
   obtain ⟨t', g1', Wx, hr1', okx⟩ := hm g W vx vt vl rr hi hw hrr
   obtain ⟨et, eg⟩ := run_det hr1 hr1'
@@ -300,7 +327,40 @@ theorem iterV1 {m : GraphM Trunk} {T : Scope} (hm : Spec True m T) (hT : T.Indep
   have hha := hlt1 _ ok.ha.live
   have hht := hlt1 _ ok.ht.live
   have hhl := hlt1 _ ok.hl.live
-  refine ⟨t, c, g1, _, _, g4, g5, g6, W2, hr1, hr2, hr3, hr4, hr5, by rw [hg6]; exact hr6, ?_⟩
+  -- the structural side: where the subscriptions go, what is reachable from an apply head
+  have hch : g1.next ≤ c.head := by have := cok.head_ge; rw [n4] at this; exact this
+  have hin6 : ∀ s k q, g6.inputOf s k = some q →
+      (s < g1.next ∧ g1.inputOf s k = some q) ∨ (g1.next ≤ s ∧ g1.next ≤ q.node) ∨ (s = t.apply.head ∧ q = pa) ∨
+      (s = t.train.head ∧ q = pt) ∨ (s = t.label.head ∧ q = pl) ∨ (g1.next ≤ s ∧ q = px) := by
+    intro s k q hq
+    rw [hg6] at hq
+    rcases inputOf_pushEdge_some hq with hq | ⟨e1, _, e3⟩
+    · by_cases hs : s < g1.next
+      · rw [cok.frame.input s k (by rw [n4]; exact hs), hg4] at hq
+        rcases inputOf_pushEdge_some hq with hq | ⟨e1, _, e3⟩
+        · rcases inputOf_pushEdge_some hq with hq | ⟨e1, _, e3⟩
+          · rcases inputOf_pushEdge_some hq with hq | ⟨e1, _, e3⟩
+            · exact Or.inl ⟨hs, hq⟩
+            · exact Or.inr (Or.inr (Or.inr (Or.inl ⟨e1.symm, e3.symm⟩)))
+          · exact Or.inr (Or.inr (Or.inr (Or.inr (Or.inl ⟨e1.symm, e3.symm⟩))))
+        · exact Or.inr (Or.inr (Or.inl ⟨e1.symm, e3.symm⟩))
+      · have := cok.closed s k q (by rw [n4]; omega) hq
+        rw [n4] at this
+        exact Or.inr (Or.inl ⟨by omega, this⟩)
+    · exact Or.inr (Or.inr (Or.inr (Or.inr (Or.inr ⟨by rw [← e1]; exact hch, e3.symm⟩))))
+  have hext : IterExt g g6 W2 t c pa pt pl px := by
+    refine iter_reach hw f6 hi.bounded ⟨ok.ha.ge, hha⟩ (ok.closed trivial) hin6
+      (fun s k q hq => in6 s k q (cok.frame.input_mono hi4.bounded s k q (in4 s k q hq)))
+      (in6 _ _ _ (cok.frame.input_mono hi4.bounded _ _ _ ia4)) ok.ha.free
+      (not_reach_of_no_input ok.ht.free (fun e => d1 e.symm)) (not_reach_of_no_input ok.hl.free (fun e => d2 e.symm))
+      (fun n hre hne => (ok.reg trivial n hre hne).2) ?_ (ok.regTail trivial) (ok.sep trivial)
+      ⟨ok.tails_ge.2.1, ok.tails_ge.2.2, by have := cok.tail_ge; rw [n4] at this; exact this⟩
+      (hlt _ ht.live) (hlt _ hl.live) (hlt _ hx.live)
+    intro n hre
+    by_cases hh : n = t.apply.head
+    · rw [hh]; exact (old2 ⟨_, 0⟩ ok.ha.live).1
+    · exact (old2 ⟨n, 0⟩ (ok.reg trivial n hre hh).1).1
+  refine ⟨t, c, g1, _, _, g4, g5, g6, W2, hr1, hr2, hr3, hr4, hr5, by rw [hg6]; exact hr6, ?_, hext⟩
   refine ⟨by rw [hg6]; exact hi6, by rw [hg6]; exact hw6, f6, ok.agree.trans cok.agree (by rw [n4]; exact hgg1), ?_, ?_, ?_,
     ⟨cok.tail_live, by rw [cok.tail_val]; exact okx.ta.2⟩,
     ⟨ok.tails_ge.1, ok.tails_ge.2.1, ok.tails_ge.2.2, by have := cok.tail_ge; omega⟩, ?_, ?_, ?_, ?_⟩
